@@ -189,6 +189,8 @@ def random_ops(rng, decimal=False, pause_centric=False, aim_pauses=False):
             ops.append(['run', dt])
             for _ in range(rng.randint(2, 6)):     # several additions: one alone never rounds below
                 ops.append(['run', rng.choice(grid[2:]) * rng.randint(1, 9)])
+            if rng.random() < 0.3:
+                ops.append(['cancel', a])          # cancelled while paused: must stay dead after the resume
             ops.append(['unpause', a])
             ops.append(['run', rng.choice(grid[1:])])
     n = rng.randint(10, 80)
